@@ -656,6 +656,25 @@ def type_param_items(tier):
     return out
 
 
+def function_arity_items(tier):
+    """every function name a parser knows (Parser.FUNCTIONS of the base dialect; for the other dialects the names they add or
+    override) called with 0..3 (quick) / 0..5 arguments: the builders index their argument lists by position"""
+    from sqlglot.dialects.dialect import Dialect as _D
+
+    base = _D.get_or_raise(None).parser_class.FUNCTIONS
+    out = []
+    for d in corpus.dialects():
+        fns = _D.get_or_raise(d or None).parser_class.FUNCTIONS
+        names = sorted(n for n, b in fns.items() if d == "" or n not in base or base[n] is not b)
+        for n in names:
+            if not n.replace("_", "").isalnum():
+                continue
+            for k in range(0, 4 if tier == "quick" else 6):
+                args = ", ".join(["x", "'a'", "1", "y", "2", "z"][:k])
+                out.append((f"SELECT {n}({args}) FROM t", d, ("IMMEDIATE",)))
+    return out
+
+
 def loop_construct_items(tier):
     """(sql, dialect, levels): every one-token mutation of each construct in its own dialect"""
     lv = ("IMMEDIATE", "RAISE") if tier == "quick" else tuple(LEVELS)
@@ -706,7 +725,9 @@ def items_for(tier):
         stats["loop_construct_mutations"] = len(lc)
         tp = type_param_items(tier)
         stats["type_parameters"] = len(tp)
-        items += b + c + sp + ch + sc_ + lc + tp
+        fa = function_arity_items(tier)
+        stats["function_arities"] = len(fa)
+        items += b + c + sp + ch + sc_ + lc + tp + fa
     else:
         b = [(m, d, all4) for m in muts for d in ds]
         stats["mutations"] = len(b)
@@ -722,7 +743,9 @@ def items_for(tier):
         stats["loop_construct_mutations"] = len(lc)
         tp = type_param_items(tier)
         stats["type_parameters"] = len(tp)
-        items += b + c + sp + ch + sc_ + lc + tp
+        fa = function_arity_items(tier)
+        stats["function_arities"] = len(fa)
+        items += b + c + sp + ch + sc_ + lc + tp + fa
     return items, stats
 
 
